@@ -24,6 +24,19 @@ Oracle formulations (DESIGN.md, C03, corrected false alarms are heeded):
     zero-width character on the same laid-out line as a shown character is a violation.
   * "text that cannot be displayed at all": a text containing a character wider than the width, in the
     wrapping modes; the whole text then gives one empty line (tests/test_text_layout.py pins `[[]]`).
+    In clip/ellipsis mode the same text is judged by the window rule (the cut character is blank).
+  * clip with center/right alignment of a line that is too long: the alignment formula is applied to the
+    negative spare, i.e. the window shows the middle / the end of the line (tests pin `(-3, None)` shifts).
+  * a zero-width character is shown iff the character it combines with is shown; zero-width characters
+    at the very start of a line (nothing to combine with) may or may not be shown when the line is cut.
+  * ellipsis: an over-long line is a full row (prefix, mark, at most one blank left by a double-width
+    character, on either side of the mark) and is not moved by the alignment; where the width has no room
+    for one text column plus the encoding's own mark, plain clipping is accepted as well.
+  * a red `space-breaks-at-spaces/next-to-wide-char` is the literal statement ("breaks only at spaces
+    whenever every word fits", word = run of non-space characters) against urwid's CJK rule that a line
+    may break before/after any double-width character; it is kept apart so that the decision on it does
+    not blur the clause for ordinary words.
+The `[...]` label in a "raised" reason and the `failure_summary` are diagnostics, not part of the oracle.
 """
 from __future__ import annotations
 
@@ -131,11 +144,21 @@ class Tally:
         ds = sorted(self.by_sig.items(), key=lambda kv: (len(kv[1][1]["classes"]), kv[1][1]["width"], kv[0]))
         first, rest, seen = [], [], set()
         for sig, (count, d) in ds:
-            parts = sig.split("|")
+            parts = sig.split("|", 5)
             coarse = (parts[0], parts[3], parts[5])
             (rest if coarse in seen else first).append(dict(d, same_kind_failures=count))
             seen.add(coarse)
         return (first + rest)[:20]
+
+    @property
+    def summary(self):
+        """Failed evaluations per (clause, wrap mode, reason shape), all encodings/alignments together."""
+        agg = {}
+        for sig, (count, _d) in self.by_sig.items():
+            parts = sig.split("|", 5)
+            key = " | ".join(x for x in (parts[0], parts[3], parts[5]) if x)
+            agg[key] = agg.get(key, 0) + count
+        return dict(sorted(agg.items(), key=lambda kv: -kv[1]))
 
 
 class MergedCheck(Check):
@@ -146,7 +169,7 @@ class MergedCheck(Check):
 
     def result(self):
         r = super().result()
-        r.update(evaluations=self.tally.ev, distinct_nontrivial=self.tally.nt, failures=self.tally.failures, samples=self.tally.samples, wall_s=round(self.wall, 2), failed_evaluations=self.tally.failed, failure_kinds=len(self.tally.by_sig))
+        r.update(evaluations=self.tally.ev, distinct_nontrivial=self.tally.nt, failures=self.tally.failures, samples=self.tally.samples, wall_s=round(self.wall, 2), failed_evaluations=self.tally.failed, failure_kinds=len(self.tally.by_sig), failure_summary=self.tally.summary)
         return r
 
 
@@ -410,7 +433,7 @@ def _texts(alphabet, length, prefix):
 
 def _task(args):
     """One shard: all texts of one config and length starting with `prefix`."""
-    kind, ci, length, prefix, maxw = args
+    kind, ci, length, prefix, maxw, wraps = args
     cfg = (CONFIGS if kind == "main" else UNENCODABLE)[ci]
     enc, mode, as_bytes, alphabet, pool = cfg
     tallies = {c: Tally() for c in CLAUSES}
@@ -421,7 +444,7 @@ def _task(args):
             if kind != "main" and not any(c in ("z" if mode == "wide" else "wz") for c in classes):
                 continue  # representable text: already covered by the main configurations
             for width in range(1, maxw + 1):
-                for wrap in WRAPS:
+                for wrap in wraps:
                     for align in ALIGNS:
                         sample = {"enc": enc, "bytes": as_bytes, "classes": classes, "width": width, "wrap": wrap, "align": align}
                         if kind != "main":
@@ -478,11 +501,17 @@ def run(tier="quick", seed=0):
         for length in range(maxlen[len(alphabet)] + 1):
             plen = min(length, 2 if length < 6 else 3)
             for prefix in itertools.product(alphabet, repeat=plen):
-                tasks.append(("main", ci, length, "".join(prefix), maxw))
+                tasks.append(("main", ci, length, "".join(prefix), maxw, WRAPS))
     for ci, cfg in enumerate(UNENCODABLE):
         for length in range(1, unenc_len + 1):
             for prefix in itertools.product(cfg[3], repeat=min(length, 1)):
-                tasks.append(("unenc", ci, length, "".join(prefix), maxw))
+                tasks.append(("unenc", ci, length, "".join(prefix), maxw, WRAPS))
+    extra = ""
+    if tier != "quick":
+        # one length further for the wrapping modes (the 'unwrap previous space' logic), main configuration only
+        for prefix in itertools.product(CONFIGS[0][3], repeat=3):
+            tasks.append(("main", 0, maxlen[5] + 1, "".join(prefix), maxw, ("any", "space")))
+        extra = f"; utf-8 str length {maxlen[5] + 1} in any/space modes"
     tasks.sort(key=lambda a: -a[2])  # longest shards first
     procs = max(1, min(16, os.cpu_count() or 1))
     ctx = multiprocessing.get_context("fork")
@@ -499,7 +528,7 @@ def run(tier="quick", seed=0):
             total[c].merge(t)
     wall = time.time() - t0
     lens = ", ".join(f"{cfg[0]} {'bytes' if cfg[2] else 'str'} over {{{','.join(cfg[3])}}} length <= {maxlen[len(cfg[3])]}" for cfg in CONFIGS)
-    bound = f"all texts by character class (n narrow, s space, l newline, w double-width, z zero-width): {lens}; width 1..{maxw}; wraps {'/'.join(WRAPS)}; aligns {'/'.join(ALIGNS)}; unencodable str length <= {unenc_len}"
+    bound = f"all texts by character class (n narrow, s space, l newline, w double-width, z zero-width): {lens}; width 1..{maxw}; wraps {'/'.join(WRAPS)}; aligns {'/'.join(ALIGNS)}; unencodable str length <= {unenc_len}{extra}"
     checks = []
     for c, rule in CLAUSES.items():
         checks.append(MergedCheck(f"C03/{c}", rule, True, bound, total[c], wall).result())
